@@ -145,15 +145,32 @@ def doOrder (st : St) (kind dir root method mode : String) : String :=
 
 /-- builder reuse (`mode1+mode2+...`, a stage may retarget: `path:5`): the model keeps no state between the
     calls of one builder, so every stage is the ordinary request with the target then in force -/
-def doSearchStages (st : St) (kind dir root target method : String) (stages : List String) : String :=
-  let rec go : List String → String → List String
-    | [], _ => []
-    | s :: rest, tg =>
-      let (m, tg') := match s.splitOn ":" with
-        | [m, k] => (m, k)
-        | _ => (s, tg)
-      doSearch st kind dir root tg' method m :: go rest tg'
-  " ## ".intercalate (go stages target)
+def doSearchStages (st : St) (kind dir root target method : String) (stages : List String) : St × String :=
+  let rec go : St → List String → String → St × List String
+    | st, [], _ => (st, [])
+    | st, s :: rest, tg =>
+      -- a graph mutation between two calls on the same builder: `c.U.V.E`, `d.U.V`, `x.U`
+      let mutated : Option St := match s.splitOn "." with
+        | ["c", u, v, e] => match u.toNat?, v.toNat?, e.toNat? with
+          | some u, some v, some e => some { st with s := connect st.s u v e }
+          | _, _, _ => none
+        | ["d", u, v] => match u.toNat?, v.toNat? with
+          | some u, some v => some { st with s := (if st.directed then Di.disconnect st.s u v else Un.disconnect st.s u v).1 }
+          | _, _ => none
+        | ["x", u] => match u.toNat? with
+          | some u => some { st with s := (if st.directed then Di.isolate st.s u else Un.isolate st.s u).1 }
+          | none => none
+        | _ => none
+      match mutated with
+      | some st' => let (st'', out) := go st' rest tg; (st'', "ok" :: out)
+      | none =>
+        let (m, tg') := match s.splitOn ":" with
+          | [m, k] => (m, k)
+          | _ => (s, tg)
+        let (st'', out) := go st rest tg'
+        (st'', doSearch st kind dir root tg' method m :: out)
+  let (st', outs) := go st stages target
+  (st', " ## ".intercalate outs)
 
 def doOrderStages (st : St) (kind dir root method : String) (stages : List String) : String :=
   " ## ".intercalate (stages.map fun m => doOrder st kind dir root method m)
@@ -727,7 +744,7 @@ def step (st : St) (line : String) : St × String :=
     | _, _ => (st, "bad-op")
   | ["search", kind, dir, root, target, method, mode] =>
     if method.contains '@' then doLiveSearch st false kind dir root target method mode
-    else if mode.contains '+' then (st, doSearchStages st kind dir root target method (mode.splitOn "+"))
+    else if mode.contains '+' then doSearchStages st kind dir root target method (mode.splitOn "+")
     else (st, doSearch st kind dir root target method mode)
   | ["order", kind, dir, root, method, mode] =>
     if method.contains '@' then doLiveSearch st true kind dir root "-" method mode
